@@ -159,7 +159,7 @@ func (s *State) doCall(w *Worker, t *Thread, fr *Frame, fnVal Value, args []Valu
 		return
 	}
 	fi := s.eng.info(fn)
-	if fi.redirect != nil {
+	if fi.redirect != nil && (fi.name != logPath+"/expr.Parse" || s.opts.ExprTable) {
 		fn = fi.redirect
 		fi = s.eng.info(fn)
 	}
